@@ -7,7 +7,8 @@
 (*  dg {proto, kind, mut, res, n [, match]}   one datagram: res is          *)
 (*        "reply" | "drop" | "panic" | "wedged" (the handler goroutine is   *)
 (*        parked on a mutex 10 s later) | "slow"; n replies were sent       *)
-(*  probe {proto, res, n}    after the history: is the server still alive   *)
+(*  probe {proto, res, n, must}   after the history: is the server still     *)
+(*        alive (must: this chain answers this request whatever happened)   *)
 (*  batch {free, imposed, msgs[{kinds, flags}]}   concurrent DHCPv6         *)
 (*        messages of clients that hold nothing, on a pool with `free`      *)
 (*        blocks; flags[k]: IA_PD k got a prefix                            *)
@@ -41,7 +42,8 @@ TraceDg ==
 
 TraceProbe ==
   /\ IsEvent("probe")
-  /\ ("C01" \in Lens) => Handled(Trace[l])            \* no lock was left held: later datagrams are handled
+  /\ ("C01" \in Lens) => /\ Handled(Trace[l])        \* no lock was left held: later datagrams are handled ...
+                          /\ Trace[l].must => Trace[l].res = "reply"   \* ... and answered, where this chain cannot but answer
 
 TraceSwap ==
   /\ IsEvent("swap")
